@@ -111,8 +111,11 @@ def _run(ex, g, watch, probes):
         if node.kind == "test":
             v = ex.ev(node.ast, env)
             labels = ("true", "false") if v is UNKNOWN else (("true",) if v else ("false",))
+            from .absint import refine
             for b, l in node.out:
-                if l in labels or l == "exc":
+                if l in labels:
+                    stack.append((b, refine(ex, node.ast, env, l) if v is UNKNOWN else env, events))
+                elif l == "exc":
                     stack.append((b, env, events))
             continue
         env2 = ex.apply(node, env)
